@@ -118,6 +118,29 @@ def generate(g, tier):
             cases.append(dict(op='compile', src=dict(text=files[entry]), meta=dict(family='planted-text', frames=[[None, a, b] for (_, a, b) in frames], fault=kind)))
         else:
             cases.append(dict(op='compile_file', file=entry, files=files, meta=dict(family='planted-files', frames=[list(f) for f in frames], fault=kind)))
+    # a failure that follows a WARNING raised from the same command line (which dumped the trace once already): grouped arguments
+    # of an unknown command, of DEFAULT_DELAY given several times, a grouped RUN whose first call warned — the innermost entry
+    # names the argument line that failed, at every depth
+    for _ in range(count(tier, 60, 400)):
+        depth = g.r.randint(0, 2)
+        ind = '    ' * depth
+        pre = [('    ' * d) + 'IF TRUE' for d in range(depth)]
+        kind = g.r.choice(['unknown', 'ddelay', 'run', 'unknown-inline'])
+        nok = g.r.randint(1, 3)
+        head = ['FUNC warnf', '    HOLD x', 'FUNC badf', '    $STRING 1/0']
+        if kind == 'unknown': body = [ind + '$HOLD'] + [ind + '    ' + '1+1'] * nok + [ind + '    1/0']; off = 0
+        elif kind == 'ddelay': body = [ind + 'DEFAULT_DELAY'] + [ind + '    5'] * (nok + 1) + [ind + '    1/0']; off = 1; nok += 1
+        elif kind == 'unknown-inline': body = [ind + '$HOLD 1+1'] + [ind + '    2'] * (nok - 1) + [ind + '    1/0']; off = -1
+        else: body = [ind + 'RUN'] + [ind + '    warnf'] * nok + [ind + '    badf']; off = 0
+        lines = head + pre + body
+        cmd_line = len(head) + depth + 1
+        bad_line = len(lines)
+        frames = [[None, len(head) + d + 1, None] for d in range(depth)] + [[None, cmd_line, bad_line]]
+        if kind == 'run': frames.append([None, 4, 4])
+        cases.append(dict(op='compile', src=dict(text='\n'.join(lines)), meta=dict(family='after-warning', frames=frames, fault=kind, strict_line2=True)))
+    # the iteration limit of WHILE: the error is located at the WHILE line (no entry for the body that ran last)
+    for t, fr in (('STRING a\nWHILE TRUE\n    PASS', [[None, 2, None]]), ('IF TRUE\n    WHILE n,n>=0\n        STRING x\n        PASS', [[None, 1, None], [None, 2, None]])):
+        cases.append(dict(op='compile', timeout=120, src=dict(text=t), meta=dict(family='while-limit', frames=fr, fault='limit', strict_line2=True)))
     # tab errors name an ill-indented line (also covered by C03)
     for _ in range(count(tier, 40, 300)):
         n = g.r.randint(1, 8)
@@ -144,6 +167,8 @@ def oracle(cases, results):
         want = m['frames']
         if [f[:2] for f in got] != [f[:2] for f in want]:
             fs.append(fail(i, f'trace (file, line) entries differ: expected {want} got {got}', 'planted:path')); continue
+        if m.get('strict_line2') and [f[2] for f in got[:-1]] + [got[-1][2]] != [f[2] if f[2] is not None or k == len(want) - 1 else got[k][2] for k, f in enumerate(want)][:len(got)] and got[-1][2] != want[-1][2]:
+            fs.append(fail(i, f'innermost entry should name argument line {want[-1][2]}, names {got[-1][2]}', 'planted:line2')); continue
         if got[-1][2] != want[-1][2] and want[-1][2] != want[-1][1]:
             fs.append(fail(i, f'innermost entry should name grouped-argument line {want[-1][2]}, names {got[-1][2]}', 'planted:line2')); continue
         if r.get('trace_limit_bad'):
